@@ -12,7 +12,7 @@ FORMATS = ["pq_model", "qubo", "ising", "bqm"]
 
 META = {
     "rule": "states = (program, format): programs of families B (<= 2 operators, all labelings; 3 operators over <= 4 variables), I1 depth-1, S and T with "
-            "<= 8 input bits x formats {bqm, ising, qubo, pq_model}, exported by the real QlassF.to_bqm with a polynomial-semantics stand-in for pyqubo. "
+            "<= 8 input bits, and 7 parameterised programs bound to every value of their parameters (42 binds), x formats {bqm, ising, qubo, pq_model}, exported by the real QlassF.to_bqm with a polynomial-semantics stand-in for pyqubo. "
             "The polynomial handed to compile() (and the QUBO / Ising / BQM coefficient tables derived from it) is evaluated on EVERY assignment of all "
             "its variables; E(x) = min over non-input variables. Oracle: argmin_x E(x) equals argmin_x #true return bits (bit-parallel evaluation of "
             "the function's expressions), with E = 0 there when the function has a zero; the model's variables are argument bits or declared "
@@ -42,10 +42,31 @@ def shards(tier):
         if fam == "I1" and (sh.get("kind") != "d1" or (sh["wa"], sh["wb"]) != (2, 2)):
             continue
         out.append(dict(sh))
+    out.append({"fam": "P"})
     return out
 
 
+# parameterised programs: the model is built after binding ("all accepted programs (after parameter binding)")
+BOUND = [
+    ("def tfun(a: Qint[2], p: Parameter[Qint[2]]) -> bool:\n    return a == p\n", [{"p": v} for v in range(4)]),
+    ("def tfun(a: Qint[2], b: Qint[2], p: Parameter[Qint[2]]) -> bool:\n    return (a + p) > b\n", [{"p": v} for v in range(4)]),
+    ("def tfun(a: bool, b: bool, c: bool, p: Parameter[bool]) -> bool:\n    return ((a and b) if p else (a or b)) ^ c\n", [{"p": False}, {"p": True}]),
+    ("def tfun(a: Qint[2], b: Qint[2], p: Parameter[Qint[2]]) -> Qint[2]:\n    return (a + p) ^ b\n", [{"p": v} for v in range(4)]),
+    ("def tfun(a: Qint[2], p: Parameter[Qlist[bool, 2]]) -> bool:\n    return (a[0] == p[0]) and (a[1] != p[1])\n",
+     [{"p": [x, y]} for x in (False, True) for y in (False, True)]),
+    ("def tfun(a: Qint[2], b: bool, p: Parameter[Qint[2]], q: Parameter[bool]) -> bool:\n    return (a < p) or (b and q)\n",
+     [{"p": v, "q": w} for v in range(4) for w in (False, True)]),
+    ("def tfun(a: Qint[2], b: Qint[2], p: Parameter[Qlist[Qint[2], 2]]) -> bool:\n    return (a == p[0]) or (b == p[1])\n",
+     [{"p": [v, w]} for v in range(4) for w in range(4)]),
+]
+
+
 def cases(shard):
+    if shard["fam"] == "P":
+        for src, binds in BOUND:
+            for kw in binds:
+                yield {"src": src, "fam": "P", "bind": kw, "key": "bqm|bind=%s|%s" % (sorted(kw.items()), src)}
+        return
     i = 0
     for c in progs.prog_cases(shard):
         i += 1
@@ -128,6 +149,12 @@ def run_case(case):
         qf = H.translate(case["src"], "default")
     except Exception as e:
         return {"status": "rejected", "rows": 0, "nontrivial": False, "outcome": "rej:" + H.exc_name(e)}
+    if case.get("bind"):
+        try:
+            qf = qf.bind(**case["bind"])
+        except Exception as e:
+            return {"status": "violation", "rows": 0, "nontrivial": True, "outcome": "bind-raises",
+                    "detail": {"bad": [{"why": "bind raised %s: %s" % (H.exc_name(e), str(e)[:100])}]}, "digest": H.h12("bind-raises")}
     if not hasattr(qf, "to_bqm") or not hasattr(qf, "args"):
         return {"status": "skipped", "rows": 0, "nontrivial": False, "outcome": "unbound"}
     names = H.input_names(qf)
